@@ -31,22 +31,22 @@ def srcBranches : List BrD → Src.Branches
 (`E`: the end label of the if-block, where the block's end jump goes) -/
 structure BrOK (cx : Cx) (fuel : Nat) (E : Nat) (s : St) (env : Src.Env) (d : BrD) : Prop where
   hok : HdrsOK d.hs
-  grow : ∀ k b, Grow cx.Z b (Src.trStmts fuel [] env (toSrcStmts d.body) k b).1
+  grow : ∀ k b, Grow cx.Z b (Src.trStmts fuel cx.sm env (toSrcStmts d.body) k b).1
   pos : d.neg = false → ∃ bps tgt L, HdrsTo tgt bps d.hdrs ∧ (∀ b ∈ bps, tgt b = L) ∧ NamesOf d.hs bps ∧
-    ∀ r ib, Placed cx.rs r ib d.PB → ∀ k b, AgreeOn cx.N cx.Z b (Src.trStmts fuel [] env (toSrcStmts d.body) k b).1 →
-      ∀ m j, ExitsOK cx m j s env → NamedIn cx d.sB → R2 cx m j (target cx.rs E) k →
-        R2 cx m j (target cx.rs L) (Src.trStmts fuel [] env (toSrcStmts d.body) k b).2
+    ∀ r ib, Placed cx.cp cx.rs r ib d.PB → ∀ k b, AgreeOn cx.N cx.Z b (Src.trStmts fuel cx.sm env (toSrcStmts d.body) k b).1 →
+      ∀ m j, ExitsOK cx m j s env → NamedIn cx d.sB → R2 cx m j (target cx.rs (cx.cp.σ E)) k →
+        R2 cx m j (target cx.rs (cx.cp.σ L)) (Src.trStmts fuel cx.sm env (toSrcStmts d.body) k b).2
   negc : d.neg = true → ∃ bps tgt eL PB', HdrsTo tgt bps d.hdrs ∧ (∀ b ∈ bps, tgt b = eL) ∧ NamesOf d.hs bps ∧
     d.PB = PB' ++ [.label eL false] ∧
-    ∀ r ib, Placed cx.rs r ib d.PB → ∀ k b, AgreeOn cx.N cx.Z b (Src.trStmts fuel [] env (toSrcStmts d.body) k b).1 →
-      ∀ m j, ExitsOK cx m j s env → NamedIn cx d.sB → R2 cx m j (target cx.rs E) k →
-        R2 cx m j ⟨r, ib⟩ (Src.trStmts fuel [] env (toSrcStmts d.body) k b).2
-  labs : ∀ r ib, Placed cx.rs r ib d.PB → ∀ k b, AgreeOn cx.N cx.Z b (Src.trStmts fuel [] env (toSrcStmts d.body) k b).1 →
-    ∀ m j, ExitsOK cx m j s env → NamedIn cx d.sB → R2 cx m j (target cx.rs E) k →
-      LabExport cx env m j b (Src.trStmts fuel [] env (toSrcStmts d.body) k b).1
+    ∀ r ib, Placed cx.cp cx.rs r ib d.PB → ∀ k b, AgreeOn cx.N cx.Z b (Src.trStmts fuel cx.sm env (toSrcStmts d.body) k b).1 →
+      ∀ m j, ExitsOK cx m j s env → NamedIn cx d.sB → R2 cx m j (target cx.rs (cx.cp.σ E)) k →
+        R2 cx m j ⟨r, ib⟩ (Src.trStmts fuel cx.sm env (toSrcStmts d.body) k b).2
+  labs : ∀ r ib, Placed cx.cp cx.rs r ib d.PB → ∀ k b, AgreeOn cx.N cx.Z b (Src.trStmts fuel cx.sm env (toSrcStmts d.body) k b).1 →
+    ∀ m j, ExitsOK cx m j s env → NamedIn cx d.sB → R2 cx m j (target cx.rs (cx.cp.σ E)) k →
+      LabExport cx env m j b (Src.trStmts fuel cx.sm env (toSrcStmts d.body) k b).1
 
-theorem backOf_placed {rs : List (List LItem)} {r : Nat} : ∀ (brs : List BrD) (q : Nat), Placed rs r q (backOf brs) →
-    ∀ d ∈ brs, d.neg = false → ∃ ib, Placed rs r ib d.PB := by
+theorem backOf_placed {c : Copy} {rs : List (List LItem)} {r : Nat} : ∀ (brs : List BrD) (q : Nat), Placed c rs r q (backOf brs) →
+    ∀ d ∈ brs, d.neg = false → ∃ ib, Placed c rs r ib d.PB := by
   intro brs
   induction brs with
   | nil => intro q _ d hd; simp at hd
@@ -60,14 +60,14 @@ theorem backOf_placed {rs : List (List LItem)} {r : Nat} : ∀ (brs : List BrD) 
     · exact ih _ hp.right d hd hn
 
 theorem chain_corr (cx : Cx) (fuel : Nat) (E : Nat) (s : St) (env : Src.Env) (he : EnvOK cx env) : ∀ (brs : List BrD),
-    (∀ d ∈ brs, BrOK cx fuel E s env d) → ∀ r p, Placed cx.rs r p (frontOf brs) →
-    (∀ d ∈ brs, d.neg = false → ∃ ib, Placed cx.rs r ib d.PB) → ∀ (k elseEntry : Nat) (b : Src.B),
-      Grow cx.Z b (Src.trBranches fuel [] env (srcBranches brs) k elseEntry b).1 ∧
-      (AgreeOn cx.N cx.Z b (Src.trBranches fuel [] env (srcBranches brs) k elseEntry b).1 → ∀ m j, ExitsOK cx m j s env →
-        (∀ d ∈ brs, NamedIn cx d.sB) → R2 cx m j (target cx.rs E) k →
+    (∀ d ∈ brs, BrOK cx fuel E s env d) → ∀ r p, Placed cx.cp cx.rs r p (frontOf brs) →
+    (∀ d ∈ brs, d.neg = false → ∃ ib, Placed cx.cp cx.rs r ib d.PB) → ∀ (k elseEntry : Nat) (b : Src.B),
+      Grow cx.Z b (Src.trBranches fuel cx.sm env (srcBranches brs) k elseEntry b).1 ∧
+      (AgreeOn cx.N cx.Z b (Src.trBranches fuel cx.sm env (srcBranches brs) k elseEntry b).1 → ∀ m j, ExitsOK cx m j s env →
+        (∀ d ∈ brs, NamedIn cx d.sB) → R2 cx m j (target cx.rs (cx.cp.σ E)) k →
         (R2 cx m j ⟨r, p + (frontOf brs).length⟩ elseEntry →
-          R2 cx m j ⟨r, p⟩ (Src.trBranches fuel [] env (srcBranches brs) k elseEntry b).2) ∧
-        LabExport cx env m j b (Src.trBranches fuel [] env (srcBranches brs) k elseEntry b).1) := by
+          R2 cx m j ⟨r, p⟩ (Src.trBranches fuel cx.sm env (srcBranches brs) k elseEntry b).2) ∧
+        LabExport cx env m j b (Src.trBranches fuel cx.sm env (srcBranches brs) k elseEntry b).1) := by
   intro brs
   induction brs with
   | nil =>
@@ -79,25 +79,25 @@ theorem chain_corr (cx : Cx) (fuel : Nat) (E : Nat) (s : St) (env : Src.Env) (he
     intro hall r p hp hback k elseEntry b
     have hd := hall d (by simp)
     simp only [frontOf] at hp
-    have hpH : Placed cx.rs r p d.hdrs := hp.left.left
-    have hpB : Placed cx.rs r (p + d.hdrs.length) (if d.neg then d.PB else []) := hp.left.right
-    have hpR : Placed cx.rs r (p + (d.hdrs ++ if d.neg then d.PB else []).length) (frontOf rest) := hp.right
+    have hpH : Placed cx.cp cx.rs r p d.hdrs := hp.left.left
+    have hpB : Placed cx.cp cx.rs r (p + d.hdrs.length) (if d.neg then d.PB else []) := hp.left.right
+    have hpR : Placed cx.cp cx.rs r (p + (d.hdrs ++ if d.neg then d.PB else []).length) (frontOf rest) := hp.right
     obtain ⟨gR, cR⟩ := ih (fun x hx => hall x (by simp [hx])) r _ hpR (fun x hx => hback x (by simp [hx])) k elseEntry b
     simp only [srcBranches]
     rw [Src.trBranches]
-    simp only [he.1]
-    generalize Src.trBranches fuel [] env (srcBranches rest) k elseEntry b = R1 at gR cR ⊢
+    dsimp only
+    generalize Src.trBranches fuel cx.sm env (srcBranches rest) k elseEntry b = R1 at gR cR ⊢
     obtain ⟨b1, restEntry⟩ := R1
     simp only at gR cR ⊢
     have gB := hd.grow k b1
-    generalize hR2 : Src.trStmts fuel [] env (toSrcStmts d.body) k b1 = R2' at gB ⊢
+    generalize hR2 : Src.trStmts fuel cx.sm env (toSrcStmts d.body) k b1 = R2' at gB ⊢
     obtain ⟨b2, bodyEntry⟩ := R2'
     simp only at gB ⊢
     cases hneg : d.neg with
     | false =>
       obtain ⟨bps, tgt, L, hh, htg, hnm, hsem⟩ := hd.pos hneg
       obtain ⟨ib, hpb⟩ := hback d (by simp) hneg
-      obtain ⟨gT, cT⟩ := testChain_corr cx L bps d.hdrs d.hs tgt hh htg hnm hd.hok r p hpH bodyEntry restEntry b2
+      obtain ⟨gT, cT⟩ := testChain_corr cx L env.subst he.ev bps d.hdrs d.hs tgt hh htg hnm hd.hok r p hpH bodyEntry restEntry b2
       simp only [Bool.false_eq_true, if_false]
       refine ⟨(gR.trans gB).trans gT.grow, fun hag m j hex hin hend => ?_⟩
       have agR : AgreeOn cx.N cx.Z b b1 := hag.sub_grow (Grow.refl b) (gB.trans gT.grow)
@@ -108,7 +108,7 @@ theorem chain_corr (cx : Cx) (fuel : Nat) (E : Nat) (s : St) (env : Src.Env) (he
         rw [hR2] at this; exact this
       refine ⟨fun hels => ?_, LabExport.comp gR.len (cR agR m j hex (fun x hx => hin x (by simp [hx])) hend).2
         (LabExport.comp gB.len hexp (LabExport.same (fun i hi => gT.same hi)))⟩
-      have hbody : R2 cx m j (target cx.rs L) bodyEntry := by
+      have hbody : R2 cx m j (target cx.rs (cx.cp.σ L)) bodyEntry := by
         have := hsem r ib hpb k b1 (by rw [hR2]; exact agB) m j hex (hin d (by simp)) hend
         rw [hR2] at this; exact this
       have hrest : R2 cx m j ⟨r, p + d.hdrs.length⟩ restEntry := by
@@ -120,7 +120,7 @@ theorem chain_corr (cx : Cx) (fuel : Nat) (E : Nat) (s : St) (env : Src.Env) (he
     | true =>
       obtain ⟨bps, tgt, eL, PB', hh, htg, hnm, hpbe, hsem⟩ := hd.negc hneg
       simp only [hneg, if_true] at hpB hpR
-      obtain ⟨gT, cT⟩ := testChain_corr cx eL bps d.hdrs d.hs tgt hh htg hnm hd.hok r p hpH restEntry bodyEntry b2
+      obtain ⟨gT, cT⟩ := testChain_corr cx eL env.subst he.ev bps d.hdrs d.hs tgt hh htg hnm hd.hok r p hpH restEntry bodyEntry b2
       simp only [if_true]
       refine ⟨(gR.trans gB).trans gT.grow, fun hag m j hex hin hend => ?_⟩
       have agR : AgreeOn cx.N cx.Z b b1 := hag.sub_grow (Grow.refl b) (gB.trans gT.grow)
@@ -140,13 +140,13 @@ theorem chain_corr (cx : Cx) (fuel : Nat) (E : Nat) (s : St) (env : Src.Env) (he
           simpa [Nat.add_assoc] using hels)
         simpa [hneg] using this
       -- the end label of the block: taken tests go there, and on to the next branch
-      have hlab : itemAt cx.rs ⟨r, p + d.hdrs.length + PB'.length⟩ = some (.label eL false) := by
+      have hlab : ItemC cx.cp cx.rs ⟨r, p + d.hdrs.length + PB'.length⟩ (.label eL false) := by
         rw [hpbe] at hpB
         simpa using hpB.item (d := PB'.length) (by simp)
-      have htgt : target cx.rs eL = ⟨r, p + d.hdrs.length + PB'.length⟩ := by
+      have htgt : target cx.rs (cx.cp.σ eL) = ⟨r, p + d.hdrs.length + PB'.length⟩ := by
         rw [hpbe] at hpB
         simpa using hpB.resolve cx.hlab (d := PB'.length) (l := eL) (nm := false) (by simp)
-      have hend' : R2 cx m j (target cx.rs eL) restEntry := by
+      have hend' : R2 cx m j (target cx.rs (cx.cp.σ eL)) restEntry := by
         rw [htgt]
         refine R2.silL (lab_label hlab) ?_
         simpa [LPos.next, hpbe, Nat.add_assoc] using hrest
